@@ -21,15 +21,19 @@ RULE = ("A per-connection automaton is fed by the client's ConnectionStateChange
         "itself), local+remote together, client stop, disconnect() while still CONNECTING (at 1 s, or aimed at the "
         "instant the 3 s connect completes), cancellation of the task running disconnect() or of the connecting "
         "request after 0-10 loop steps / 20-200 ms; optionally an application listener for state changes that "
-        "suspends (1-3 loop steps or 50 ms), so that every notification is a suspension point. kind=request / "
+        "suspends (1-3 loop steps or 50 ms), so that every notification is a suspension point; in a third of the runs "
+        "the last act is Network.disconnect() overlapped, 0-7 loop steps / 1-10 ms in, by a request with a known "
+        "address or a peer dialling in: whatever is opened meanwhile has to be registered while it is open. kind=request / "
         "connect-back: the C11 scenarios (refused, hanging, reset, cancelled after k loop steps ...) judged with "
         "the C10 rules. Non-trivial: >= 1 connection reached CLOSED under observation; distinct = full spec + result.")
 ASSUMPTIONS = [
     "an endpoint whose close() is in progress (FIN not yet confirmed) is not a leak",
     "a registry entry in CONNECTING/CLOSING state is legitimate while the task that created it is still running",
 ]
-MIN_OBS = {'quick': {'conns_closed': 800, 'conn_events': 3000, 'registry_checks': 600, 'endings_judged': 100},
-           'thorough': {'conns_closed': 40000, 'conn_events': 150000, 'registry_checks': 30000, 'endings_judged': 5000}}
+MIN_OBS = {'quick': {'conns_closed': 800, 'conn_events': 3000, 'registry_checks': 600, 'endings_judged': 100,
+                     'opened_during_disconnect': 80},
+           'thorough': {'conns_closed': 40000, 'conn_events': 150000, 'registry_checks': 30000, 'endings_judged': 5000,
+                        'opened_during_disconnect': 15000}}
 SHARD_TIMEOUT = {'quick': 900, 'thorough': 7200}
 
 
